@@ -5,6 +5,7 @@
    ctir.trace <function> <arg>…   → ok n=<events> h=<digest> d=<declassified verdicts> | panic … | stuck
    ctir.check <function>          → true | false      (the label checker on the slice of that function)
 
+   an optional first argument `tape=<int>` is the randomness `io.ReadFull` delivers (the external world)
    values: decimal integers, `[v,v,…]` arrays, `x<hex>` byte arrays (`x` alone: empty) -/
 import SMGo.Model.CTIR
 import SMGo.Gen.CTIRProg
@@ -93,7 +94,7 @@ def powMod (b e m : Nat) : Nat := Id.run do
     e := e / 2
   return r
 
-def oracle : Oracle := fun name args =>
+def oracle (tape : Option Int) : Oracle := fun name args =>
   let key := extNames.getD name ""
   match key, args with
   | "big.Int.SetBytes", [.arr b] => [.int (Int.ofNat (bytesToNat b))]
@@ -108,8 +109,10 @@ def oracle : Oracle := fun name args =>
     [.int (Int.ofNat (powMod (a % m).toNat (m.toNat - 2) m.toNat))]
   | "fmt.Errorf", _ => [.int 1]
   | "io.ReadFull", [.int r, .int n] =>
-    -- the "reader" is an integer: its n-byte big-endian encoding is what every read returns
-    let bs := natToBytes r.toNat
+    -- every read returns the n-byte big-endian encoding of the tape (request prefix `tape=<int>`: the
+    -- secret randomness of this world, not an argument of the call) or, without a tape, of the
+    -- integer that stands for the reader
+    let bs := natToBytes (tape.getD r).toNat
     [.arr (List.replicate (n.toNat - bs.length) (.int 0) ++ bs), .int n, .int 0]
   | _, _ => []
 
@@ -119,8 +122,12 @@ def lookupFn (name : String) : Option Nat :=
   (fnNames.zipIdx.find? (fun p => p.1 == name)).map (·.2)
 
 def runFn (name : String) (args : List String) : Option (Option (Ctl × Trace)) :=
+  let (tape, args) : Option Int × List String :=
+    match args with
+    | a :: rest => if a.startsWith "tape=" then ((a.drop 5).toString.toInt?, rest) else (none, args)
+    | [] => (none, [])
   match lookupFn name, args.mapM parseArg with
-  | some g, some vs => some (run (slice prog g) globals oracle fuel g vs)
+  | some g, some vs => some (run (slice prog g) globals (oracle tape) fuel g vs)
   | _, _ => none
 
 def showDeclass (t : Trace) : String :=
